@@ -303,5 +303,7 @@ pub fn run(tier: Tier, seed: u64) -> i32 {
     ev.floor("representations", ev.set_len("representations") as u64, 5);
     ev.floor("value fidelity checks", ev.bucket_get("value_fidelity"), 1000);
     ev.floor("end to end", ev.bucket_get("end_to_end"), 10);
+    ev.floor("near-miss assignments (one sub-identity on one row) refused by the real prover", ev.bucket_get("near_miss.end_to_end"), 6);
+    ev.floor("sub-identities covered by near misses", ev.set_len("near_miss_identities") as u64, 1);
     ev.finish()
 }
